@@ -24,6 +24,7 @@ class Arith:
 
     def __init__(self, mode="bv", width=256, fmode="real"):
         self.mode, self.W, self.fmode = mode, width, fmode
+        self.int_origin = {}     # id of a Real term that is exactly float(int term) -> that int term
         self.mag = {}            # z3 ast id -> bits b with |value| < 2^b   (bv mode overflow tracking)
         self.assumptions = []    # global side constraints (err-mode deltas, declared ranges)
         self._nfresh = 0
@@ -143,14 +144,22 @@ class Arith:
         if self.is_float_term(v):
             return v
         if isinstance(v, z3.BitVecRef):
-            r = z3.ToReal(z3.BV2Int(v, True))
+            r = z3.ToReal(self.bv2int(v))
         elif isinstance(v, z3.ArithRef) and v.is_int():
             r = z3.ToReal(v)
         else:
             raise Unsupported(f"to_float({v})")
         if self.fmode == "fp":
             return z3.fpRealToFP(RNE, r, F64)
+        self.int_origin[r.get_id()] = v          # float(i): remember the integer it came from
         return r                       # err mode: ints below 2^53 convert exactly
+
+    def bv2int(self, v):
+        """signed value of a W-bit term as z3 Int, using the tracked magnitude to keep the conversion narrow"""
+        b = self.mag.get(v.get_id())
+        if b is not None and b + 1 < v.size():
+            v = z3.Extract(b, 0, v)
+        return z3.BV2Int(v, True)
 
     def float_to_int(self, v):
         """python int(float): truncation toward zero, returns int-sort term"""
@@ -353,6 +362,15 @@ class Arith:
         if c is not False:
             self.raises.append((z3.And(pc, y == zero), ZeroDivisionError))
 
+    def _narrow(self, x, y, w, fn):
+        """compute fn on the low w bits (w covers both operands and the result, signed) and sign-extend:
+        keeps multipliers/dividers small; exact because |x|,|y| < 2^(w-1) by the tracked magnitudes"""
+        w = max(w + 1, 2)
+        if w >= self.W:
+            return fn(x, y)
+        r = fn(z3.Extract(w - 1, 0, x), z3.Extract(w - 1, 0, y))
+        return z3.SignExt(self.W - w, r)
+
     def binop_bv(self, t, a, b, pc):
         x, y = self.num(a), self.num(b)
         bx, by = self.bits(x), self.bits(y)
@@ -362,7 +380,7 @@ class Arith:
         if t is ast.Sub:
             return S(x - y, max(bx, by) + 1)
         if t is ast.Mult:
-            return S(x * y, bx + by)
+            return S(self._narrow(x, y, bx + by + 1, lambda p, q: p * q), bx + by)
         if t is ast.BitOr:
             return S(x | y, max(bx, by))
         if t is ast.BitXor:
@@ -386,15 +404,17 @@ class Arith:
             self._zero_guard(y, pc, self.const(0))
             if not isinstance(b, z3.ExprRef) and b > 0 and b & (b - 1) == 0:
                 return S(x & self.const(b - 1), by)
-            return S(x % y, by)           # bvsmod: sign follows the divisor, as in python
+            return S(self._narrow(x, y, max(bx, by) + 1, lambda p, q: p % q), by)   # bvsmod: sign follows the divisor, as in python
         if t is ast.FloorDiv:
             self._zero_guard(y, pc, self.const(0))
             if not isinstance(b, z3.ExprRef) and b > 0 and b & (b - 1) == 0:
                 return S(x >> self.const(b.bit_length() - 1), bx)
-            q = x / y                      # bvsdiv truncates toward zero
-            r = z3.SRem(x, y)
-            adj = z3.And(r != 0, (r < 0) != (y < 0))
-            return S(z3.If(adj, q - 1, q), bx + 1)
+            def fdiv(p, q_):
+                q = p / q_                     # bvsdiv truncates toward zero
+                r = z3.SRem(p, q_)
+                adj = z3.And(r != 0, (r < 0) != (q_ < 0))
+                return z3.If(adj, q - 1, q)
+            return S(self._narrow(x, y, max(bx, by) + 2, fdiv), bx + 1)
         if t is ast.Pow and not isinstance(b, z3.ExprRef) and isinstance(b, int) and 0 <= b <= 4:
             r = self.const(1)
             for _ in range(b):
@@ -521,6 +541,10 @@ class Arith:
         fa = isinstance(a, float) or self.is_float_term(a)
         fb = isinstance(b, float) or self.is_float_term(b)
         if fa or fb:
+            # float(i) against an int / integral constant / float(j): decide in the integer sort
+            ia, ib = self._int_view(a), self._int_view(b)
+            if ia is not None and ib is not None and (isinstance(ia, z3.ExprRef) or isinstance(ib, z3.ExprRef)):
+                return self.cmp_num(t, ia, ib)
             # comparisons between an int and a float are exact in python: compare as reals
             x = y = None
             if not (self.fmode == "fp" and fa and fb):
@@ -537,6 +561,19 @@ class Arith:
         return {ast.Eq: lambda: x == y, ast.NotEq: lambda: x != y, ast.Lt: lambda: x < y,
                 ast.LtE: lambda: x <= y, ast.Gt: lambda: x > y, ast.GtE: lambda: x >= y}[t]()
 
+    def _int_view(self, v):
+        if isinstance(v, bool):
+            return int(v)
+        if isinstance(v, int):
+            return v
+        if isinstance(v, float):
+            return int(v) if v.is_integer() and abs(v) < 2 ** 62 else None
+        if isinstance(v, z3.ExprRef):
+            if self.is_int_term(v):
+                return v
+            return self.int_origin.get(v.get_id())
+        return None
+
     def _exact_real(self, v):
         if isinstance(v, bool):
             v = int(v)
@@ -549,7 +586,7 @@ class Arith:
         if isinstance(v, z3.FPRef):
             return z3.fpToReal(v)
         if isinstance(v, z3.BitVecRef):
-            return z3.ToReal(z3.BV2Int(v, True))
+            return z3.ToReal(self.bv2int(v))
         if isinstance(v, z3.ArithRef):
             return z3.ToReal(v) if v.is_int() else v
         if isinstance(v, z3.BoolRef):
